@@ -39,6 +39,7 @@ def run(ctx):
     for (fn, b, node, _) in A.kb_decodes:
         k2(ctx, fx, A, fn, b, node)
     k3b(ctx, fx, A)
+    k3c(ctx, fx, A)
     k4(ctx, fx, A)
 
 
@@ -405,6 +406,47 @@ def hash_input_ok(x):
 
 
 # ---------------------------------------------------------------------------------------------
+def k3c(ctx, fx, A):
+    """the hash input `jwt~d1~..~dn~` determines the presented sequence only if no entry contains the separator: every presented disclosure
+    string is base64url-decoded (the alphabet has no `~`) on every iteration of the loop over input_disclosures, and a decoding failure is an
+    Err — an entry that is skipped instead lets `[d1, d2]` be rewritten to `["d1~d2"]` (JSON form) under the same sd_hash"""
+    import c07
+    ok_, why_, writer = c07.hash_map_pairing(fx)
+    if writer is None:
+        ctx.missing("C04.K3", "map writer", "no function fills the digest maps")
+        return
+    W = fx.view(writer.name)
+    wv = vals(W)
+    loops = [lp for lp in common.next_loops(W) if any(is_field(peel(r), "input_disclosures") for (r, ad) in lp.sources())]
+    decs = []
+    for b, t in W.calls():
+        if (t.get("resolved") or "") == "utils::base64url_decode":
+            n = wv.call_node(b)
+            for lp in loops:
+                if n.kids and common.item_path(n.kids[0], lp.node) is not None or (n.kids and any(common.item_path(x, lp.node) is not None for x in walk(n.kids[0]))):
+                    decs.append((b, n, lp))
+                    break
+    if not decs:
+        ctx.finding("C04.K3", W, "entries-decoded", "the presented disclosure strings are not base64url-decoded in the loop over input_disclosures: an entry containing `~` is not refused")
+        return
+    for (b, n, lp) in decs[:1]:
+        line = W.term(b).get("line")
+        body_skip = any(lp.bb in cfg.reachable(W, [d_], removed_blocks=[b]) for d_ in lp.body_entries)
+        good, bad = success_edges(W, n)
+        swallowed = False
+        if bad:
+            r = cfg.reachable(W, [tg for (_, tg) in bad if W.term(tg)["k"] != "unreachable"])
+            oks = [e for e in cfg.exit_sites(W) if e["bb"] in r and e["kind"] not in ("Err", "residual")]
+            swallowed = bool(oks) or lp.bb in r
+        else:
+            swallowed = not may(wv.return_value(), lambda x: x is n)
+        if body_skip or swallowed:
+            ctx.finding("C04.K3", W, "entries-decoded", "a presented disclosure string that %s: `jwt~d1~d2~` is then also the hash input of the list [\"d1~d2\"], so disclosures can be removed from a "
+                        "JSON presentation without invalidating the key-binding JWT" % ("is not base64url is skipped instead of rejected" if swallowed else "can be passed over without being decoded"), line=line)
+        else:
+            ctx.ok("C04.K3", W, "entries-decoded", "every presented disclosure string is base64url-decoded and a failure is an Err: no entry contains the `~` separator", line=line)
+
+
 def k3b(ctx, fx, A):
     """the presented sequence (JWT, disclosure list, KB-JWT) is immutable after parsing: in verifier-reachable code these SDJWTCommon
     fields are written / mutably borrowed only by the parsers (functions reachable from the parse dispatcher)"""
